@@ -96,7 +96,8 @@ impl Rat {
         if self.is_poison() || e.is_poison() || e.den != 1 || e.num.abs() > 24 {
             return POISON;
         }
-        if e.num < 0 && self.num == 0 {
+        // a power with base zero and a non-positive exponent has no value here
+        if e.num <= 0 && self.num == 0 {
             return POISON;
         }
         let mut r = Rat::int(1);
@@ -489,7 +490,7 @@ pub fn eval_tree<T: Real>(t: &Tree, table: &Table, vars: &[String], vals: &[T], 
                         _ => unreachable!(),
                     }, Tree::Lit(_)) && e.fract() == 0.0;
                     if const_int_exp {
-                        g.need(e >= 0.0 || a.value().abs() > MARGIN);
+                        g.need(e > 0.0 || a.value().abs() > MARGIN);
                     } else {
                         g.need(a.value() > MARGIN);
                     }
